@@ -37,7 +37,7 @@ def verdict(res):
 
 def main():
     rnd = int(sys.argv[1])
-    ks = {1: "12", 2: "34", 3: "56", 4: "78"}[rnd]
+    ks = {1: "12", 2: "34", 3: "56", 4: "78", 5: "9"}[rnd]
     rows = []
     stats = {"first": {"input": 0, "obligation": 0, "missed": 0}, "final": {"input": 0, "obligation": 0, "missed": 0}}
     for d in sorted(glob.glob(os.path.join(V, "seeded", "C??_[%s]" % ks))):
